@@ -5,14 +5,8 @@
 (* character automaton), and the classification of a field for a variable  *)
 (* type as accept / reject / either.                                       *)
 (***************************************************************************)
-EXTENDS Integers, Sequences
+EXTENDS Bytes
 
-COMMA == 44
-BLANK == 32
-PLUS == 43
-MINUS == 45
-POINT == 46
-IsDigit(c) == c >= 48 /\ c <= 57
 
 S2B(s) == s   \* texts are already byte sequences
 
